@@ -16,7 +16,8 @@ module M = struct
   type ev = lp_ev
   let name = "limitpool"
   let gen_params rng =
-    let m = (match Random.State.int rng 12 with 0 -> 0 | 1 -> 1 | 2 -> 2 | 3 -> 3 | 10 -> 2147483653 | 11 -> 2147483647 | n -> 1 + n mod 4) in
+    let m = (match Random.State.int rng 14 with 0 -> 0 | 1 -> 1 | 2 -> 2 | 3 -> 3 | 10 -> 2147483653 | 11 -> 2147483647
+                                               | 12 -> 4294967297 | 13 -> 1025 | n -> 1 + n mod 4) in
     [string_of_int m]
   let init params = lp_init (z_of_string (List.hd params))
   let nthreads = 5
@@ -60,8 +61,11 @@ module M = struct
     @ (if inflight >= 2 then ["two-or-more-calls-in-flight"] else [])
     @ (if List.exists (fun (_, p) -> p = GetComp) c.lp_thr && (match e with LStep _ -> true | _ -> false)
        then ["step-while-a-compensation-is-pending"] else [])
-  let labels = List.map label_of_pc [GetDec; GetComp; GetRetF; GetRetT; PutPool; PutAdd]
-  let funcs = ["LimitPool.Get"; "LimitPool.Put"]
+  (* the constructor is pinned by its text: lp_init is `tokens.Add(int64(maxTokens))` on a zero counter, nothing else *)
+  let ctor_labels = ["NewLimitPool|tokens.Add(int64(maxTokens))|0";
+                     "NewLimitPool|return &LimitPool[T]{ pool: NewPool[T](factory), tokens: &tokens, }|0"]
+  let labels = List.map label_of_pc [GetDec; GetComp; GetRetF; GetRetT; PutPool; PutAdd] @ ctor_labels
+  let funcs = ["LimitPool.Get"; "LimitPool.Put"; "NewLimitPool"]
   let nontrivial = ["step-while-a-compensation-is-pending"]
   let final_check c =
     (* the model's own invariant, evaluated on the final configuration (a test, not the proof) *)
@@ -71,3 +75,42 @@ end
 
 module L = Lockstep.Make (M)
 let () = Registry.register "limitpool-lockstep" L.main
+
+(* ---- sequential differential `limitpool-seq` (NewLimitPool / Get / Put run alone, statement by statement through
+   the same extracted lp_init / lp_exec1):  "<maxTokens> tok ..." with g<n> = n Gets -> g<successes>,
+   p<k> = Put back min(k, held) -> p<put>, t -> t<token counter>.  Mirrors harness/c14/lpseq.go. ---- *)
+let seq_step c e =
+  match lp_exec1 c e with Some r -> r | None -> failwith "limitpool-seq: event not enabled"
+let seq_get c =
+  let t = nat_of_int 1 in
+  let (c, _) = seq_step c (LCallGet t) in
+  let rec go c = match seq_step c (LStep t) with (c', LRetGet b) -> (c', b) | (c', _) -> go c' in
+  go c
+let seq_put c =
+  let t = nat_of_int 1 in
+  let (c, _) = seq_step c (LCallPut t) in
+  let rec go c = match seq_step c (LStep t) with (c', LRetPut) -> c' | (c', _) -> go c' in
+  go c
+let run_seq _ =
+  iter_lines (fun line ->
+    match words line with
+    | [] -> print_endline ""
+    | m :: toks ->
+      let c = ref (lp_init (z_of_string m)) in
+      let outs = List.map (fun tok ->
+          let arg () = int_of_string (String.sub tok 1 (String.length tok - 1)) in
+          match tok.[0] with
+          | 't' -> "t" ^ z_to_string !c.lp_tokens
+          | 'g' ->
+            let succ = ref 0 in
+            for _ = 1 to arg () do
+              let (c', b) = seq_get !c in c := c'; if b then incr succ
+            done;
+            "g" ^ string_of_int !succ
+          | 'p' ->
+            let k = arg () and d = ref 0 in
+            while !d < k && BinInt.Z.ltb (z_of_string "0") !c.lp_held do c := seq_put !c; incr d done;
+            "p" ^ string_of_int !d
+          | _ -> "badop") toks in
+      print_endline (String.concat " " outs))
+let () = Registry.register "limitpool-seq" run_seq
